@@ -242,6 +242,33 @@ def run_explicit_spaces(ctx):
         check_operator(ctx, name, op, rng, lin_tol=1e-5 if 'single-twin' in name else 1e-9)
 
 
+def run_derivatives(ctx):
+    """Derivatives of the non-linear operators are linear operators that return adjoints (between a complex and a real space
+    for the modulus operators: compared in real part): the same contract applies to them."""
+    rng = ctx.rng('derivatives')
+    crng = ctx.crng('derivatives-ctor')
+    for i, (name, thunk) in enumerate(registry.nonlinear_population(crng, ctx.thorough)):
+        if not ctx.mine(i):
+            continue
+        if any(e in name for e in EXEMPT):
+            continue
+        try:
+            op = thunk()
+            if registry.needs_positive(name):
+                x = registry.rel(op.domain, rng, True)
+            else:
+                x = util.rand_element(op.domain, rng)
+            D = op.derivative(x)
+            D.adjoint
+        except Exception:
+            continue        # no derivative / no adjoint offered here: C06's and C03's business
+        if not isinstance(D, Operator) or not D.is_linear:
+            continue
+        comp, variant, _tag = split_name(name)
+        ctx.case('derivative-of;' + name, 0)
+        check_operator(ctx, name + '.derivative(x)', D, rng, comp=comp + '.derivative(x)', variant=variant, lin_tol=1e-7)
+
+
 def run_trees(ctx):
     """Random linear expression trees from the C04 generator (linear leaves only)."""
     rng = ctx.rng('trees')
@@ -281,6 +308,7 @@ def run(ctx):
     cov.arm()
     run_registry(ctx)
     run_explicit_spaces(ctx)
+    run_derivatives(ctx)
     run_trees(ctx)
     cov.disarm()
     n_exec, n_hit, unreached = cov.report()
